@@ -38,5 +38,13 @@ ob = json.load(open(V + '/lean/obligations.json'))
 for p in parts:
     for k, v in p.get('obligations', {}).items():
         ob[k] = v
+# the end-to-end pipeline model is an additional stage of C08's check: its theorems are audited there too
+if 'E2E' in ob and 'C08' in ob:
+    for m in ob['E2E']['modules']:
+        if m not in ob['C08']['modules']:
+            ob['C08']['modules'].append(m)
+    for t in ob['E2E']['theorems']:
+        if t not in ob['C08']['theorems']:
+            ob['C08']['theorems'].append(t)
 json.dump(ob, open(V + '/lean/obligations.json', 'w'), indent=1)
 print('modules', len(mods), 'handlers', handlers, 'obligations', sorted(ob))
